@@ -70,14 +70,12 @@ theorem repLoop_adv {α} (unit : Nat → Inp → M → R α) (hu : ∀ idx, AdvF
     intro idx i m acc i' m' a h
     unfold repLoop at h
     split at h
-    · split at h
-      · cases h
-      · injection h with h1; rw [← h1]; exact Inp.Adv.refl _
+    · rw [(repDone_ok h).1]; exact Inp.Adv.refl _
     · split at h
       · cases h
       · split at h
         · cases h
-        · injection h with h1; rw [← h1]; exact Inp.Adv.refl _
+        · rw [(repDone_ok h).1]; exact Inp.Adv.refl _
       · next i1 m1 a1 h1 =>
         exact (hu idx _ _ _ _ _ (restoreOnNone_ok h1)).trans (ih _ _ _ _ _ _ _ h)
 
@@ -293,7 +291,7 @@ theorem parse_adv (g : NodeGrammar) (uni : Uni) :
           · cases h
           · next i1 m1 v h1 => injection h with h0; subst h0; exact ih _ _ _ _ _ _ _ h1
     | array k x =>
-      simp only [parse] at h
+      simp only [parse, arrayTryInto_arrayLoop] at h
       split at h
       · cases h
       · cases h
